@@ -1,5 +1,4 @@
 """C11 — deferred traits mirror their target: delegation and prototyping (cluster `deleg`)."""
-import os
 import subprocess
 import sys
 
@@ -18,8 +17,12 @@ RULE = ("real HasTraits classes for the four prefix styles (same name, explicit 
         "(valid, rejected, k-th-operation-fails validators), delete, re-point the delegate (object or None), read; "
         "after every operation the values read through every object, the handler events on every attribute "
         "(on_trait_change and observe), the swallowed handler exceptions and the __listener_traits__ / hooked "
-        "object of every forwarder are compared with the Lean model; a case is non-trivial when some operation "
-        "changed a value, raised or produced an event; distinct = distinct case line")
+        "object of every forwarder are compared with the Lean model; corpus: the witness histories of the Lean "
+        "refutations (F18-F20), the `del`-raises-after-deleting branches, chains of 99 / 100 / 101 levels (the "
+        "100-step recursion limit); quick: 2000 histories for each of the 8 style x kind shapes + 500 for each of 8 "
+        "chain shapes + 150 for each of 3 malformed shapes, thorough: 6250 / 3000 / 1000; a case is non-trivial when "
+        "some operation changed a value or the forwarder table, raised, or produced an event; distinct = distinct "
+        "case line")
 TRUSTED = [
     "traits_listener.py (ListenerParser/ListenerItem, 1300 lines) is abstracted to: a forwarder of (o, n) is hooked "
     "on at most one object, re-hooked by every change of o.d, and hooking on X succeeds iff X.base_trait(target) "
@@ -32,7 +35,7 @@ TRUSTED = [
 ASSUMPTIONS = [
     "every declared attribute of every object carries an on_trait_change and an observe handler (so the notifier "
     "branches of setattr_trait are always taken)",
-    "the delegate graph stays acyclic (reading through a cycle crashes the interpreter: finding N5, probed in a "
+    "the delegate graph stays acyclic (reading through a cycle crashes the interpreter: finding F21, probed in a "
     "subprocess only); operations that would close a cycle are skipped on both sides",
     "attribute names are identifiers (no ':' '*' '.', not ending in '_'); one delegate reference attribute `d` per class",
     "objects are kept alive for the whole history (weak references of the listener machinery never die)",
@@ -48,11 +51,11 @@ def corpus():
         mk("pre-D", "id,id", "sw 0 2;st 2 p_x 5;st 2 x 6;st 0 x 7"),
         mk("star-D", "id,id", "sw 0 2;st 2 q_x 5;st 2 x 6;st 0 x 7;st 0 y 1;st 2 q_y 2;dl 0 y;st 2 q_y 3"),
         mk("star-nopfx", "id,id", "sw 0 1;st 1 x 5;st 0 x 6"),
-        # N2: chain hooked top-down through a None delegate
+        # F18: chain hooked top-down through a None delegate (Lean: Witness.topDown)
         mk("same-D", "id,id", "sw 0 1;sw 1 2;st 2 x 5"),
-        # N3: '*' chain, different class prefixes: write and read name different attributes
+        # F19: '*' chain, different class prefixes: write and read name different attributes (Lean: Witness.starPool)
         mk("star2-diff", "id,id", "sw 1 2;sw 0 1;st 0 x 5;rd 0 x"),
-        # N4: DelegatesTo through a broken PrototypedFrom link
+        # F20: DelegatesTo through a broken PrototypedFrom link (Lean: Witness.protoPool)
         mk("D-P-T", "id,id", "sw 1 2;sw 0 1;st 1 x 7;st 0 x 9;rd 0 x"),
         # `del` of a prototyped value raising after it deleted: the read-back fails / the listener re-hook fails
         mk("star2-deep", "id,id", "sw 2 3;sw 1 2;sw 0 1;st 0 x 5;sw 2 N;dl 0 x;rd 0 x"),
@@ -90,9 +93,12 @@ def generate(rng, tier):
 
 
 def nontrivial(case, out):
-    return (" E[]" not in out.replace(" E[] ", " E[] ", 1)) or ("err" in out) or any(
-        p.split(" S[")[1] != q.split(" S[")[1] for p, q in zip(out.split(" ; "), out.split(" ; ")[1:])
-        if " S[" in p and " S[" in q)
+    """Some operation raised, notified somebody, or changed a visible value / the forwarder table."""
+    parts = [p for p in out.split(" ; ") if " S[" in p]
+    if any(p.startswith("err") or " E[] " not in p or " X0 " not in p for p in parts):
+        return True
+    states = [p.split(" S[", 1)[1] for p in parts]
+    return any(a != b for a, b in zip(states, states[1:]))
 
 
 def _hit(sig, what, **kw):
